@@ -58,6 +58,22 @@ theorem getAttrOr_fs (s : St) (now : Nat) (n : Node) (d : Attrs) : (getAttrOr s 
   have := getAttr_fs s now n
   split <;> simp_all
 
+theorem getAttr_hs (s : St) (now : Nat) (n : Node) : (getAttr s now n).1.hs = s.hs := by
+  unfold getAttr
+  simp only
+  split <;> rfl
+
+theorem getAttrOr_hs (s : St) (now : Nat) (n : Node) (d : Attrs) : (getAttrOr s now n d).1.hs = s.hs := by
+  unfold getAttrOr
+  have := getAttr_hs s now n
+  split <;> simp_all
+
+theorem lookupDirAttr_fst (s : St) (now : Nat) (n : Node) (k : Attrs → Outcome) :
+    (lookupDirAttr s now n k).1 = (getAttrOr s now n n.attrs).1 := rfl
+
+theorem lookupDirAttr_snd (s : St) (now : Nat) (n : Node) (k : Attrs → Outcome) :
+    (lookupDirAttr s now n k).2 = k (getAttrOr s now n n.attrs).2 := rfl
+
 theorem getAttrOr_cfg (s : St) (now : Nat) (n : Node) (d : Attrs) : (getAttrOr s now n d).1.cfg = s.cfg := by
   unfold getAttrOr
   have := getAttr_cfg s now n
